@@ -270,6 +270,7 @@ def run(res, tier, seed, replay_script=None):
         nlim = 0
         last_loaded, last_tensors = [], []
         checked_dims, prev_eff = [True] * d, None
+        rejected_with_limits = None
         for si, st in enumerate(steps):
             t = st.cmd.split()
             replay = {"kind": "impl-counterexample", "script": script}
@@ -287,14 +288,17 @@ def run(res, tier, seed, replay_script=None):
                 numpoints = st.obs.get("numpoints", [])
                 continue
             if st.exc is not None:
-                # a rejected call must not change the limits in force: fall back to the previous ones
-                if si in eff_at and si > 0:
-                    prev = eff_at.get(si - 1, [])
-                    for sj in range(si, len(steps) + 2):
-                        if eff_at.get(sj) == eff_at[si]:
-                            eff_at[sj] = prev
+                # a rejected call must not change the limits in force: the "#eff" written by the generator after this command assumed that it
+                # is accepted; fall back to the limits that were in force when it was issued, up to the next command that passes limits
+                old_eff, new_eff = eff_at.get(si, []), eff_at.get(si + 1)
+                if new_eff is not None and new_eff != old_eff:
+                    for sj in range(si + 1, len(exec_lines) + 1):
+                        if eff_at.get(sj) == new_eff and not (sj - 1 > si and sj - 1 < len(exec_lines) and " ll:" in exec_lines[sj - 1]):
+                            eff_at[sj] = list(old_eff)
                         else:
                             break
+                if " ll:" in st.cmd:
+                    rejected_with_limits = (st.cmd, list(old_eff))
                 continue
             if t[0] in ("refaniso", "refsurp", "refsimple", "update") and eff_at.get(si):
                 pass
@@ -320,6 +324,13 @@ def run(res, tier, seed, replay_script=None):
             m = st.obs["meta"]
             stats["states"] += 1
             api_l = st.obs.get("limits", [])
+            if rejected_with_limits is not None:
+                rcmd, keep = rejected_with_limits
+                rejected_with_limits = None
+                if api_l != keep and not (not keep and all(v == -1 for v in api_l)):
+                    stats["violations"] += 1
+                    res.violation("limits-replaced-by-rejected-call:" + fam, "%s was rejected (%s) but getLevelLimits() changed from %s to %s; the pending points were "
+                                  "selected under the old limits [%s]" % (rcmd, "exception", keep, api_l, script[1 if fam != "global" else 2]), replay)
             if eff and api_l != eff:
                 stats["violations"] += 1
                 res.violation("limits-not-persisted:" + fam, "getLevelLimits() = %s but the limits in force are %s after %s [%s]" % (api_l, eff, steps[si - 1].cmd if si else "", script[1]), replay)
